@@ -1,5 +1,173 @@
-import DisjointImpls.Match
+/-
+  C09 — header generalisation is exact first-order matching: property theorems over `sup` (Match.lean).
+  All proofs are in `Lemmas/MatchSound.lean`; this file only states the properties.
+
+  Status of the four statements as originally posed (for *all* trees `a b : T`):
+
+  * `C09_functional`  — holds as posed.
+  * `C09_identity`    — the `tparam` half holds as posed (`C09_identity_ty`); the `eparam` half is false
+                        (`C09_identity_counterexample`) and holds when `b` has no const generic argument that
+                        is a lone parameter (`noConstParam b`, `C09_identity_wf`).
+  * `C09_binds_all`   — false as posed (`C09_binds_all_counterexample_*`); holds for well-formed `a`
+                        (`wf a`, `C09_binds_all_wf`).
+  * `C09_sound`       — false as posed (`C09_sound_counterexample_*`); holds for well-formed `a`, `b` whose
+                        `Ign` children face each other (`wf a`, `wf b`, `ignFaces a (stripTop b)`,
+                        `C09_sound_wf`).
+
+  `wf`, `ignFaces`, `noConstParam` are executable (`Bool`) predicates defined in `Lemmas/MatchSound.lean`;
+  every clause of `wf` has a counterexample below showing that it cannot be dropped.
+-/
+import DisjointImpls.Lemmas.MatchSound
 namespace DI
-theorem C09_placeholder : sup (.tparam "_ŠČ0") (.tparam "_ŠČ0") = .yes [("_ŠČ0", .identity)] false := by
+
+/-! ## Theorems -/
+
+/-- the reported substitution is a function: no key occurs twice -/
+theorem C09_functional (a b : T) (σ : Subst) (l : Bool) :
+    sup a b = .yes σ l → (σ.map Prod.fst).Nodup :=
+  fun h => (supS_light a (stripTop b) σ l h).1
+
+/-- a type parameter matched against itself is reported as unchanged, never as a binding to itself -/
+theorem C09_identity_ty (a b : T) (σ : Subst) (l : Bool) (n : String) :
+    sup a b = .yes σ l → lookup σ n ≠ some (.ty (.tparam n)) := by
+  intro h hl
+  exact ((supS_light a (stripTop b) σ l h).2 (n, .ty (.tparam n)) (lookup_mem σ n _ hl)).1 rfl
+
+/-- a parameter matched against itself is reported as unchanged, never as a binding to itself
+    (`b` without a const generic argument that is a lone parameter) -/
+theorem C09_identity_wf (a b : T) (σ : Subst) (l : Bool) (n : String) (hb : noConstParam b = true) :
+    sup a b = .yes σ l →
+      lookup σ n ≠ some (.ty (.tparam n)) ∧ lookup σ n ≠ some (.ex (.eparam n)) := by
+  intro h
+  refine ⟨C09_identity_ty a b σ l n h, fun hl => ?_⟩
+  exact ((supS_light a (stripTop b) σ l h).2 (n, .ex (.eparam n)) (lookup_mem σ n _ hl)).2
+    (noConstParam_stripTop b hb) rfl
+
+/-- every parameter of a well-formed `a` (that the matcher can see) is bound -/
+theorem C09_binds_all_wf (a b : T) (σ : Subst) (ha : wf a = true) :
+    sup a b = .yes σ false → ∀ n ∈ params a, (lookup σ n).isSome = true :=
+  fun h => (supS_good a (stripTop b) σ ha h).1
+
+/-- soundness: when no lenient arm fired, the reported substitution turns `a` into `b` (modulo presentation),
+    for well-formed trees whose ignored children face each other -/
+theorem C09_sound_wf (a b : T) (σ : Subst) (ha : wf a = true) (hb : wf b = true)
+    (hf : ignFaces a (stripTop b) = true) :
+    sup a b = .yes σ false → erase (inst σ a) = erase b := by
+  intro h
+  rw [(supS_good a (stripTop b) σ ha h).2 (wf_stripTop b hb) hf, erase_stripTop]
+
+/-! ## Counterexamples to the unconditional statements
+
+Each is a closed instance evaluated by the kernel (`decide`). -/
+
+section Counterexamples
+set_option maxRecDepth 8000
+
+private def leaf (s : String) : T := .node s [] []
+
+/-- `C09_identity` (eparam half): a type parameter in generic-argument position facing the const argument
+    `_ŠČ0` is reported as the binding `_ŠČ0 ↦ ex _ŠČ0`. -/
+theorem C09_identity_counterexample :
+    sup (.node "GenericArgument::Type" [] [.tparam "_ŠČ0"]) (.node "GenericArgument::Const" [] [.eparam "_ŠČ0"])
+        = .yes [("_ŠČ0", .ex (.eparam "_ŠČ0"))] false ∧
+    lookup [("_ŠČ0", Val.ex (.eparam "_ŠČ0"))] "_ŠČ0" = some (.ex (.eparam "_ŠČ0")) := by decide
+
+theorem C09_identity_unconditional_false :
+    ¬ ∀ (a b : T) (σ : Subst) (l : Bool) (n : String), sup a b = .yes σ l →
+      lookup σ n ≠ some (.ty (.tparam n)) ∧ lookup σ n ≠ some (.ex (.eparam n)) := fun h =>
+  (h _ _ _ _ "_ŠČ0" C09_identity_counterexample.1).2 C09_identity_counterexample.2
+
+/-- `C09_binds_all`, wrapper clause of `wf`: only the last child of a transparent wrapper is matched, `params`
+    counts all of them. -/
+theorem C09_binds_all_counterexample_wrapper :
+    sup (.node "Type::Paren" [] [.tparam "y", .tparam "x"]) (leaf "Foo") = .yes [("x", .ty (leaf "Foo"))] false ∧
+    "y" ∈ params (.node "Type::Paren" [] [.tparam "y", .tparam "x"]) ∧
+    (lookup [("x", Val.ty (leaf "Foo"))] "y").isSome = false := by decide
+
+/-- `C09_binds_all`, `QSelf` clause of `wf`: children after the type are compared by equality, not matched. -/
+theorem C09_binds_all_counterexample_qself :
+    sup (.node "QSelf" [] [.tparam "x", .tparam "y"]) (.node "QSelf" [] [.tparam "x", .tparam "y"])
+      = .yes [("x", .identity)] false ∧
+    "y" ∈ params (.node "QSelf" [] [.tparam "x", .tparam "y"]) ∧
+    (lookup [("x", Val.identity)] "y").isSome = false := by decide
+
+/-- `C09_binds_all`, `Expr::Binary` clause of `wf`: the operator is compared by equality, not matched. -/
+theorem C09_binds_all_counterexample_binary :
+    sup (.node "Expr::Binary" [] [.eparam "o", leaf "L", leaf "R", leaf "A"])
+        (.node "Expr::Binary" [] [.eparam "o", leaf "L", leaf "R", leaf "A"]) = .yes [] false ∧
+    "o" ∈ params (.node "Expr::Binary" [] [.eparam "o", leaf "L", leaf "R", leaf "A"]) := by decide
+
+theorem C09_binds_all_unconditional_false :
+    ¬ ∀ (a b : T) (σ : Subst), sup a b = .yes σ false → ∀ n ∈ params a, (lookup σ n).isSome = true :=
+  fun h => by
+    have := h _ _ _ C09_binds_all_counterexample_wrapper.1 "y" C09_binds_all_counterexample_wrapper.2.1
+    rw [C09_binds_all_counterexample_wrapper.2.2] at this
+    cases this
+
+/-- `C09_sound`, hypothesis `ignFaces`: an `Ign` child on the left matches anything. -/
+theorem C09_sound_counterexample_ign :
+    sup (leaf "Ign") (.tparam "x") = .yes [] false ∧
+    erase (inst [] (leaf "Ign")) ≠ erase (.tparam "x") := by decide
+
+/-- `C09_sound`, `IgnL` clause of `wf`: a parameter beneath an `IgnL` child is compared, not instantiated. -/
+theorem C09_sound_counterexample_ignL :
+    sup (.node "X" [] [.tparam "x", .node "IgnL" [] [.tparam "x"]])
+        (.node "X" [] [leaf "Foo", .node "IgnL" [] [.tparam "x"]]) = .yes [("x", .ty (leaf "Foo"))] false ∧
+    erase (inst [("x", .ty (leaf "Foo"))] (.node "X" [] [.tparam "x", .node "IgnL" [] [.tparam "x"]]))
+      ≠ erase (.node "X" [] [leaf "Foo", .node "IgnL" [] [.tparam "x"]]) := by decide
+
+/-- `C09_sound`, atom clause of `wf`: the `Pat::Wild` arm (likewise `QSelf`, `Expr::Binary`, `OptWild`) does
+    not compare atoms. -/
+theorem C09_sound_counterexample_atoms :
+    sup (.node "Pat::Wild" ["x"] []) (.node "Pat::Wild" ["y"] []) = .yes [] false ∧
+    erase (inst [] (.node "Pat::Wild" ["x"] [])) ≠ erase (.node "Pat::Wild" ["y"] []) := by decide
+
+theorem C09_sound_counterexample_atoms_qself :
+    sup (.node "QSelf" ["x"] [leaf "A"]) (.node "QSelf" ["y"] [leaf "A"]) = .yes [] false ∧
+    erase (inst [] (.node "QSelf" ["x"] [leaf "A"])) ≠ erase (.node "QSelf" ["y"] [leaf "A"]) := by decide
+
+theorem C09_sound_counterexample_atoms_binary :
+    sup (.node "Expr::Binary" ["x"] [leaf "O", leaf "L", leaf "R", leaf "A"])
+        (.node "Expr::Binary" ["y"] [leaf "O", leaf "L", leaf "R", leaf "A"]) = .yes [] false ∧
+    erase (inst [] (.node "Expr::Binary" ["x"] [leaf "O", leaf "L", leaf "R", leaf "A"]))
+      ≠ erase (.node "Expr::Binary" ["y"] [leaf "O", leaf "L", leaf "R", leaf "A"]) := by decide
+
+theorem C09_sound_counterexample_atoms_optwild :
+    sup (.node "OptWild" ["x"] [leaf "A"]) (.node "OptWild" ["y"] [leaf "A"]) = .yes [] false ∧
+    erase (inst [] (.node "OptWild" ["x"] [leaf "A"])) ≠ erase (.node "OptWild" ["y"] [leaf "A"]) := by decide
+
+/-- `C09_sound`, `QSelf` clause of `wf`: a parameter after the type of a `QSelf` is bound by a later sibling. -/
+theorem C09_sound_counterexample_qself :
+    sup (.node "X" [] [.node "QSelf" [] [.tparam "x", .tparam "y"], .tparam "y"])
+        (.node "X" [] [.node "QSelf" [] [.tparam "x", .tparam "y"], leaf "Foo"])
+      = .yes [("x", .identity), ("y", .ty (leaf "Foo"))] false ∧
+    erase (inst [("x", .identity), ("y", .ty (leaf "Foo"))]
+        (.node "X" [] [.node "QSelf" [] [.tparam "x", .tparam "y"], .tparam "y"]))
+      ≠ erase (.node "X" [] [.node "QSelf" [] [.tparam "x", .tparam "y"], leaf "Foo"]) := by decide
+
+/-- `C09_sound`, `Expr::Binary` clause of `wf`: a parameter as operator is bound by a later sibling. -/
+theorem C09_sound_counterexample_binary_op :
+    sup (.node "X" [] [.node "Expr::Binary" [] [.eparam "o", leaf "L", leaf "R", leaf "A"], .eparam "o"])
+        (.node "X" [] [.node "Expr::Binary" [] [.eparam "o", leaf "L", leaf "R", leaf "A"], leaf "Foo"])
+      = .yes [("o", .ex (leaf "Foo"))] false ∧
+    erase (inst [("o", .ex (leaf "Foo"))]
+        (.node "X" [] [.node "Expr::Binary" [] [.eparam "o", leaf "L", leaf "R", leaf "A"], .eparam "o"]))
+      ≠ erase (.node "X" [] [.node "Expr::Binary" [] [.eparam "o", leaf "L", leaf "R", leaf "A"], leaf "Foo"]) := by
   decide
+
+theorem C09_sound_unconditional_false :
+    ¬ ∀ (a b : T) (σ : Subst), sup a b = .yes σ false → erase (inst σ a) = erase b := fun h =>
+  C09_sound_counterexample_ign.2 (h _ _ _ C09_sound_counterexample_ign.1)
+
+/-- the side conditions are not vacuous: `(_ŠČ0, Vec<_ŠČ0>)`-like shapes with an `Ign` child and a wrapper -/
+example :
+    let a : T := .node "Type::Tuple" [] [.node "Ign" [] [leaf "A1"], .tparam "_ŠČ0",
+      .node "Type::Paren" [] [.node "Type::Ref" ["mut"] [.tparam "_ŠČ0"]]]
+    let b : T := .node "Type::Paren" [] [.node "Type::Tuple" [] [.node "Ign" [] [leaf "A2"], leaf "u8",
+      .node "Type::Ref" ["mut"] [.node "Type::Group" [] [leaf "u8"]]]]
+    wf a = true ∧ wf b = true ∧ ignFaces a (stripTop b) = true ∧ noConstParam b = true ∧
+    sup a b = .yes [("_ŠČ0", .ty (leaf "u8"))] false := by decide
+
+end Counterexamples
+
 end DI
